@@ -16,7 +16,7 @@ def main(V, path):
         # rebuild the harness of that property from the current /repo and run only this case
         V.build_engine()
         wd = V.harness_dir(prop + ("-sched" if eng == "sched" else ""), tier)
-        p = V.run([V.engine_bin("pgen"), prop, tier, wd, str(V.NSHARDS), V.ENGINE] + (["--sched"] if eng == "sched" else []))
+        p = V.run([V.engine_bin("pgen"), prop, tier, wd, "0", V.ENGINE] + (["--sched"] if eng == "sched" else []))
         V.write_ws_config(wd)
         V.cargo_build_ws(wd)
         gen = json.load(open(os.path.join(wd, "gen.json")))
